@@ -47,6 +47,7 @@ type Case struct {
 	ModuleFrom int    `json:"module_from"`
 	TopCol     int    `json:"topcol,omitempty"`
 	TopGap     int    `json:"topgap,omitempty"`
+	Runes      bool   `json:"runes,omitempty"` // a statement of non-ASCII text stands before the statement of each def body line that reports a position (columns count runes, not bytes)
 }
 
 type pos struct {
@@ -242,10 +243,19 @@ func (b *builder) emitFail(w *writer, i int) []frame {
 	}
 }
 
+// pre is the indentation of a simple statement in a def body, optionally followed by an expression statement of
+// non-ASCII text on the same line: every position to its right is then a rune count that differs from the byte count.
+func (b *builder) pre() string {
+	if b.c.Runes {
+		return "    \"\u65e5\u672c\u8a9e \u00e9\u2713\U0001F600\"; "
+	}
+	return "    "
+}
+
 // stmtFail reports whether the failing operation needs statement context.
 func stmtFail(k string) bool {
 	switch k {
-	case "unpack", "ulocal", "for", "augindex", "setfield", "ufree", "ucell", "ufree-lambda":
+	case "unpack", "ulocal", "for", "augindex", "setfield", "ufree", "ucell", "ufree-lambda", "augindex-store", "setindex-store", "augindex-store-rhs":
 		return true
 	}
 	return false
@@ -271,12 +281,12 @@ func (b *builder) emitFunction(w *writer, i int) {
 		sp := strings.Repeat(" ", l.Col)
 		switch b.c.Fail {
 		case "unpack":
-			w.put("    (a, b)" + sp + " ")
+			w.put(b.pre() + "(a, b)" + sp + " ")
 			p := w.here()
 			w.put("= x\n")
 			b.perFn[i] = []frame{{name: me, p: p}}
 		case "ulocal":
-			w.put("    y = (" + sp)
+			w.put(b.pre() + "y = (" + sp)
 			p := w.here()
 			w.put("u)\n    u = 1\n")
 			b.perFn[i] = []frame{{name: me, p: p}}
@@ -285,13 +295,30 @@ func (b *builder) emitFunction(w *writer, i int) {
 			p := w.here()
 			w.put("for y in" + sp + " x:\n        pass\n")
 			b.perFn[i] = []frame{{name: me, p: p}}
+		case "augindex-store":
+			// the read and the operator succeed (the list is extended in place), the store into the tuple fails
+			w.put("    x = ([1],)\n" + b.pre() + "x" + sp)
+			p := w.here()
+			w.put("[0] += [2]\n")
+			b.perFn[i] = []frame{{name: me, p: p}}
+		case "augindex-store-rhs":
+			// as above with fallible operations on the right-hand side that succeed: their positions must not be reported
+			w.put("    x = ([1],)\n" + b.pre() + "x" + sp)
+			p := w.here()
+			w.put("[len(x) - 1] += [2 // 1] + list((3,))\n")
+			b.perFn[i] = []frame{{name: me, p: p}}
+		case "setindex-store":
+			w.put("    x = (1,)\n" + b.pre() + "x" + sp)
+			p := w.here()
+			w.put("[0] = 2\n")
+			b.perFn[i] = []frame{{name: me, p: p}}
 		case "augindex":
-			w.put("    x" + sp)
+			w.put(b.pre() + "x" + sp)
 			p := w.here()
 			w.put("[0] += 1\n")
 			b.perFn[i] = []frame{{name: me, p: p}}
 		case "setfield":
-			w.put("    x" + sp)
+			w.put(b.pre() + "x" + sp)
 			p := w.here()
 			w.put(".f = 1\n")
 			b.perFn[i] = []frame{{name: me, p: p}}
@@ -327,7 +354,7 @@ func (b *builder) emitFunction(w *writer, i int) {
 		b.perFn[i] = []frame{{name: me, p: p}}
 		return
 	}
-	w.put("    return ")
+	w.put(b.pre() + "return ")
 	b.perFn[i] = b.emitExpr(w, i, "    ")
 	w.put("\n")
 }
@@ -571,7 +598,7 @@ func clipSrc(s string) string {
 var subChain = vk.Register("chain", checkChain)
 
 var failKinds = []string{"unary-call", "unary-paren", "unary-attr", "unary-index", "pluschain-str", "pluschain-list", "pluschain-multiline", "pluschain-mid", "pluschain-tuple", "binary", "unary", "index", "attr", "call", "div", "cmp", "in", "dictkey", "arity", "fail", "builtin",
-	"uglobal", "unpack", "ulocal", "for", "augindex", "setfield", "ufree", "ufree-lambda", "ucell"}
+	"uglobal", "unpack", "ulocal", "for", "augindex", "setfield", "ufree", "ufree-lambda", "ucell", "augindex-store", "setindex-store", "augindex-store-rhs"}
 var callKinds = []string{"plain", "plain", "comp", "default", "sorted", "min", "max", "cond", "host-index", "host-attr", "host-binary", "host-rbinary", "host-unary", "host-cmp"}
 
 // hostVal is a host value that re-enters Starlark from operations that are not calls: computed(fn, arg)[k],
@@ -633,7 +660,7 @@ func genCase(t *rapid.T, maxLines, maxCol, maxInsns int) Case {
 		}
 		return vk.Uniform(t, max+1)
 	}
-	c := Case{Fail: failKinds[vk.Uniform(t, len(failKinds))], TopCol: pad(maxCol), TopGap: pad(maxLines)}
+	c := Case{Fail: failKinds[vk.Uniform(t, len(failKinds))], TopCol: pad(maxCol), TopGap: pad(maxLines), Runes: vk.Chance(t, 0.3)}
 	for i := 0; i < n; i++ {
 		c.Links = append(c.Links, Link{
 			Lambda:   vk.Chance(t, 0.25),
@@ -709,7 +736,7 @@ func TestPropCatalogue(t *testing.T) {
 					if !vk.Mine(i) {
 						continue
 					}
-					c := Case{Fail: fk, Order: []int{2, 0, 1}, ModuleFrom: 3,
+					c := Case{Fail: fk, Order: []int{2, 0, 1}, ModuleFrom: 3, Runes: i%3 == 0,
 						Links: []Link{{Call: ck, Lambda: lam, Col: 40, PreLines: 20}, {Call: ck, Body: 33, Insns: 20, Gap: 17}, {Call: "plain", Lambda: lam, Col: 70}}}
 					if !yield(c) {
 						return
